@@ -342,7 +342,7 @@ struct data_t
 };
 
 data_t make_data(vrng& r, int target_kind, int64_t pool, int min_samples, int max_samples, bool structs, double missing, double target_scale = 1.0,
-                 bool extreme_magnitudes = false)
+                 bool extreme_magnitudes = false, uint64_t target_noise = 0, double noise_amplitude = 1e-13)
 {
     vf::schema_opts_t o;
     o.min_features = 2;
@@ -355,6 +355,7 @@ data_t make_data(vrng& r, int target_kind, int64_t pool, int min_samples, int ma
     data_t d;
     d.source = std::make_unique<vf::sim_datasource_t>(vf::random_schema(r, o), r.next(), missing, true, extreme_magnitudes ? 10 : 0);
     d.source->target_scale(target_scale);
+    d.source->target_noise(target_noise, noise_amplitude);
     d.source->load();
     d.dataset = std::make_unique<dataset_t>(*d.source, static_cast<size_t>(pool));
     vf::add_identity_generators(*d.dataset);
@@ -743,13 +744,13 @@ void scenario_fit(ctx_t& c)
     using history_t = std::vector<std::vector<std::array<double, 4>>>; // per fold of the optimum trial: per kept round (errors / losses)
     history_t  hist_ref, hist_sim;
     const auto run_fit = [&](vrng& wr, int ncores, int64_t npool, tensor4d_t& predictions, indices_t& features, tensor1d_t& optimum, std::string& what,
-                             history_t& history, double target_scale = 1.0, int64_t batch_override = 0)
+                             history_t& history, double target_scale = 1.0, int64_t batch_override = 0, uint64_t target_noise = 0, double noise_amplitude = 1e-13)
     {
         simrt_set_cores(ncores);
         // (gradient boosting also sees features at extreme magnitudes - subnormal numbers, physical units; linear models stay
         // well conditioned, see the tolerance note below)
         const bool extreme = wr.coin(0.5) && which >= 4;
-        auto       d       = make_data(wr, 1, npool, 30, 60, false, 0.0, target_scale, extreme);
+        auto       d       = make_data(wr, 1, npool, 30, 60, false, 0.0, target_scale, extreme, target_noise, noise_amplitude);
         const auto samples = arange(0, d.dataset->samples());
         const auto params  = fast_params(wr, folds, true);
         ml::result_t result;
@@ -847,7 +848,7 @@ void scenario_fit(ctx_t& c)
     // count there is the known finding F9, not a new one.
     const auto numerically_unstable = [&]()
     {
-        const auto differs = [&](double target_scale, int64_t batch_override)
+        const auto differs = [&](double target_scale, int64_t batch_override, uint64_t target_noise = 0, double noise_amplitude = 1e-13)
         {
             vrng        wl = wl_ref0;
             tensor4d_t  p;
@@ -855,7 +856,7 @@ void scenario_fit(ctx_t& c)
             tensor1d_t  o;
             std::string w;
             history_t   h;
-            run_fit(wl, 1, 1, p, f, o, w, h, target_scale, batch_override);
+            run_fit(wl, 1, 1, p, f, o, w, h, target_scale, batch_override, target_noise, noise_amplitude);
             return !same_fit(pred_ref, feat_ref, p, f, 1e-6);
         };
         // (a) the same re-association that threads cause, on ONE core: other batch sizes group the additions of the single
@@ -875,6 +876,29 @@ void scenario_fit(ctx_t& c)
             {
                 c.probe("one_core_fit_unstable_under_1e-11_perturbation");
                 return true;
+            }
+        }
+        // (c) every target multiplied by its OWN factor 1 + 1e-13 * u: candidates that are equally good in exact arithmetic for a
+        //     structural reason (two hinges that are active on the same single sample and fit it exactly, ...) are told apart by
+        //     the rounding of their closed forms only, which a common factor leaves (nearly) alone and an uncorrelated one
+        //     re-draws. Exactly tied candidates that are computed by identical operations (duplicate columns: the F3 situation)
+        //     stay exactly tied under any perturbation of the targets and are NOT excused by this probe.
+        // Amplitudes up to 1e-8: the re-association noise of the reductions does not stay at 1e-16 - it decides where the
+        // iterative solver of the scale step stops, i.e. it is amplified up to the solver's tolerance (1e-10 here) before it
+        // meets the next decision. 1e-8 relative is still three orders below the statement's 1e-5.
+        for (const double amplitude : {1e-13, 1e-11, 1e-9, 1e-8})
+        {
+            for (uint64_t k = 1; k <= 8; ++k)
+            {
+                if (differs(1.0, 0, 0x9e3779b97f4a7c15ULL * k, amplitude))
+                {
+                    if (getenv("VERIF_DEBUG_LOG") != nullptr)
+                    {
+                        printf("DBG unstable under uncorrelated noise %g (try %d)\n", amplitude, (int)k);
+                    }
+                    c.probe(amplitude > 1e-12 ? "one_core_fit_unstable_under_uncorrelated_1e-9_noise" : "one_core_fit_unstable_under_uncorrelated_1e-13_noise");
+                    return true;
+                }
             }
         }
         return false;
